@@ -4,6 +4,9 @@ stdin : JSON list of jobs
    {"kind": "compile", "src", "header"?, "cert", "pack_format": "<text>", "namespace"?, "copy_tree"?: {relpath: content}}
        virtual build (JMCTestPack); with copy_tree the job runs inside a fresh temporary directory
        that contains these files (for `#copy`), removed afterwards
+   {"kind": "disk", "src", "header"?, "namespace"?, "pre": {relpath under the output dir: content}, "builds": ["<pack format>", …]}
+       REAL disk builds (compile_jmc, what the CLI does) into one temporary output directory that first receives the
+       files of "pre"; one build per entry of "builds", in order; result = every file of the output directory afterwards
    {"kind": "require", "pf": "<text>", "f": "<text>", "lower": bool, "as_version": bool}
        PackVersion(float(pf)).require(f | PackVersion(f), token, tokenizer, is_lower=lower)
 stdout: JSON list of results
@@ -58,6 +61,52 @@ def compile_job(job, JMCTestPack):
             shutil.rmtree(tmp, ignore_errors=True)
 
 
+def disk_job(job):
+    from pathlib import Path
+    from jmc.terminal import GlobalData, Configuration
+    from jmc.compile import compile_jmc
+    from jmc.compile.header import Header
+    cwd = os.getcwd()
+    tmp = tempfile.mkdtemp(prefix="c18d_")
+    signal.alarm(int(job.get("timeout", 30)))
+    try:
+        os.chdir(tmp)
+        try:
+            GlobalData().init("x", "jmc_config.json")
+        except Exception:  # noqa
+            pass
+        proj = Path(tmp) / "proj"
+        proj.mkdir()
+        (proj / "main.jmc").write_text(job["src"], encoding="utf-8")
+        if job.get("header") is not None:
+            (proj / "main.hjmc").write_text(job["header"], encoding="utf-8")
+        out = Path(tmp) / "out"
+        out.mkdir()
+        for rel, content in (job.get("pre") or {}).items():
+            q = out / rel
+            q.parent.mkdir(parents=True, exist_ok=True)
+            q.write_text(content, encoding="utf-8")
+        for pf in job["builds"]:
+            cfg = Configuration(GlobalData(), namespace=job.get("namespace", "TEST"), description="d", pack_format=pf,
+                                target=proj / "main.jmc", output=out)
+            Header().envs = []
+            compile_jmc(cfg)
+        files = {}
+        for f in sorted(out.rglob("*")):
+            if f.is_file():
+                files[f.relative_to(out).as_posix()] = f.read_text(encoding="utf-8")
+        return {"ok": True, "files": files}
+    except _Timeout:
+        return {"ok": False, "exc": "Timeout", "jmc": False, "msg": ""}
+    except BaseException as e:  # noqa
+        signal.alarm(0)
+        return {"ok": False, "exc": type(e).__name__, "jmc": type(e).__module__.startswith("jmc."), "msg": str(e)[:1500]}
+    finally:
+        signal.alarm(0)
+        os.chdir(cwd)
+        shutil.rmtree(tmp, ignore_errors=True)
+
+
 def require_job(job, PackVersion, Token, TokenType, Tokenizer, TooLow, TooHigh):
     try:
         tokenizer = Tokenizer("x;", "probe.jmc")
@@ -89,6 +138,8 @@ def main():
     for j in jobs:
         if j["kind"] == "compile":
             out.append(compile_job(j, JMCTestPack))
+        elif j["kind"] == "disk":
+            out.append(disk_job(j))
         else:
             out.append(require_job(j, PackVersion, Token, TokenType, Tokenizer, MinecraftVersionTooLow, MinecraftVersionTooHigh))
     sys.stdout = real_stdout
